@@ -170,7 +170,7 @@ Lemma deliver : forall S i c s h used r0 a kn allow syn,
     a + clen r0 <= e' /\ e' <= zlen S /\
     s_cfg s1 = c /\ s_ncalls s1 = Datatypes.S (s_ncalls s) /\ s_rev_seen s1 = s_rev_seen s /\ s_sid s1 = s_sid s /\
     match g' with
-    | GDead => s_exists s1 = false
+    | GDead => s_exists s1 = false /\ h_closed (s_half s1) = true
     | GLive kn' en =>
       s_exists s1 = true /\ h_closed (s_half s1) = en /\ s_rev_closed s1 = s_rev_closed s /\
       exists A', kn' = Some (A', e') /\
@@ -209,7 +209,7 @@ Proof.
         cbn [app gevs is_sg]. exists (GLive (Some (Anew, e')) true). split; [apply Hsg|].
         exists GDead. split; [|reflexivity]. cbn [gev]. split; [eauto|reflexivity]. }
       split; [rewrite Hev; rewrite nsg_app, nsg_app, nsg_tags; reflexivity|].
-      cbn [s_cfg s_ncalls s_rev_seen s_sid s_exists]. repeat split; try reflexivity; lia.
+      cbn [s_cfg s_ncalls s_rev_seen s_sid s_exists s_half h_closed]. repeat split; try reflexivity; lia.
     + eexists. exists e'. eexists. exists (GLive (Some (Anew, e')) true). split; [rewrite Hnx; reflexivity|].
       split.
       { rewrite Hev. rewrite app_nil_r. eapply gevs_app; [apply gevs_tags|]. rewrite nsg_tags, Nat.add_0_r.
@@ -416,7 +416,7 @@ Proof.
     cbn [gevs is_sg]. eexists. split; [reflexivity|exact Hgev].
   - split.
     + apply (after_deliver S i c s1 e' g'); try assumption.
-      destruct g' as [|kn' en]; [exact Hpost|].
+      destruct g' as [|kn' en]; [exact (proj1 Hpost)|].
       destruct Hpost as (H1 & H2 & _ & A' & Hk & H3). split; [exact H1|]. split; [exact H2|].
       exists A'. split; [exact Hk|]. intros Hen. destruct (H3 Hen) as (_ & HA & Hs & Hqq & _). auto.
     + cbn [set_half s_ncalls]. rewrite Hnc. rewrite nsg_app, nsg_tags. unfold nsg in *. cbn [filter is_sg length] in *.
@@ -472,7 +472,7 @@ Proof.
     + eapply gevs_app; [apply gevs_tags|]. rewrite nsg_tags, Nat.add_0_r. exact Hgev.
     + split.
       * apply (after_deliver S i c s1 e' g'); try assumption.
-        destruct g' as [|kn' en]; [exact Hpost|].
+        destruct g' as [|kn' en]; [exact (proj1 Hpost)|].
         destruct Hpost as (H1 & H2 & _ & A' & Hk & H3). split; [exact H1|]. split; [exact H2|].
         exists A'. split; [exact Hk|]. intros Hen. destruct (H3 Hen) as (_ & HA' & Hs & Hqq & Hend).
         split; [|auto].
@@ -578,4 +578,115 @@ Proof.
   - pose proof Hinv as (Hcfg & Hex & _). rewrite Hex.
     destruct (asm_body_ok S i c (g_syn seg) st [] seg kn en o n HS Hinv Hseg) as (st' & ev & g' & H1 & H2 & H3 & H4).
     exists st', ev, g'. cbn [app] in H1. auto.
+Qed.
+
+
+(* ---------------------------------------------------------------- flushes *)
+(* the data half may be closed by a flush without any event *)
+Definition gclosed (g g' : gst) : Prop := g' = g \/ exists kn, g = GLive kn false /\ g' = GLive kn true.
+
+Lemma gclosed_refl : forall g, gclosed g g.
+Proof. intros. left. reflexivity. Qed.
+
+Definition stopped (g : gst) (st : st) : Prop :=
+  match g with GLive _ false => True | _ => h_closed (s_half st) = true end.
+
+Lemma close_c2s_gen : forall S i c syn nc st kn,
+  ginv c S i (GLive kn false) st ->
+  exists st' ev gm g', close_c2s fullv st = (st', ev) /\ gevs S c true syn nc (GLive kn false) ev gm /\
+    gclosed gm g' /\ ginv c S i g' st' /\ nsg ev = O /\ s_ncalls st' = s_ncalls st /\
+    h_closed (s_half st') = true /\ (exists kn' en, g' = GLive kn' en -> en = true).
+Proof.
+  intros S i c syn nc st kn (Hcfg & Hex & Hcl & _).
+  unfold close_c2s. destruct (s_rev_closed st).
+  - eexists. eexists. exists GDead, GDead. split; [reflexivity|]. split.
+    + cbn [gevs]. exists GDead. split; [cbn [gev]; split; [eauto|reflexivity]|reflexivity].
+    + split; [apply gclosed_refl|]. split; [unfold ginv; cbn [s_cfg s_exists]; auto|].
+      split; [reflexivity|]. split; [reflexivity|]. split; [reflexivity|]. exists None, true. intros Hc; discriminate.
+  - eexists. eexists. exists (GLive kn false), (GLive kn true). split; [reflexivity|]. split; [reflexivity|].
+    split; [right; eauto|]. split.
+    + unfold ginv. cbn [s_cfg s_exists s_half h_closed]. split; [exact Hcfg|]. split; [exact Hex|].
+      split; [reflexivity|intros Hc; discriminate].
+    + split; [reflexivity|]. split; [reflexivity|]. split; [reflexivity|]. exists kn, true. reflexivity.
+Qed.
+
+Lemma skip_flush_gen : forall S i c syn st kn,
+  zlen S < HIS -> ginv c S i (GLive kn false) st ->
+  exists st' ev gm g', skip_flush fullv st = (st', ev, false) /\
+    gevs S c true syn (s_ncalls st) (GLive kn false) ev gm /\ gclosed gm g' /\ ginv c S i g' st' /\
+    s_ncalls st' = (s_ncalls st + nsg ev)%nat /\ stopped g' st'.
+Proof.
+  intros S i c syn st kn HS Hinv. pose proof Hinv as (Hcfg & Hex & Hcl & Hopen).
+  specialize (Hopen eq_refl). pose proof Hopen as (_ & Hq & Hkn).
+  unfold skip_flush. destruct (h_queue (s_half st)) as [|p1 q'] eqn:Eq.
+  - destruct (close_c2s_gen S i c syn (s_ncalls st) st kn Hinv)
+      as (st' & ev & gm & g' & He & Hg & Hgc & Hi & Hn & Hnc & Hclosed & _).
+    rewrite He. exists st', ev, gm, g'. split; [reflexivity|]. split; [exact Hg|]. split; [exact Hgc|]. split; [exact Hi|].
+    split; [rewrite Hn, Hnc; lia|].
+    unfold stopped. destruct g' as [|kn' [|]]; try exact Hclosed.
+    destruct Hi as (_ & _ & Hc' & _). congruence.
+  - cbn [qok] in Hq. destruct Hq as (o1 & Ho1 & Ho1e & Hpg & Hq1').
+    destruct (deliver S i c st
+                (mkHalf (h_pages (s_half st)) (h_saved (s_half st)) q' (h_next (s_half st)) (h_seen (s_half st))
+                        (h_closed (s_half st)))
+                (s_used st) (CPage p1) o1 kn true syn HS Hex Hcfg)
+      as (s1 & e' & ev & g' & Hsend & Hgev & Hnsg & He1 & He2 & Hc1 & Hnc & _ & _ & Hpost).
+    { exact Hcl. }
+    { apply pg_spg in Hpg. exact Hpg. }
+    { cbn [h_queue]. exact Hq1'. }
+    { destruct kn as [(A, p)|]; cbn [known_ok lo_of h_next h_saved] in *; [|exact Hkn].
+      destruct Hkn as (H1 & H2 & H3 & H4). auto. }
+    { destruct kn as [(A, p)|]; [right; reflexivity|exact I]. }
+    rewrite Hsend. rewrite sq_not_invalid.
+    eexists. exists (ETag 13 :: ev), g', g'. split; [reflexivity|]. split.
+    + cbn [gevs is_sg]. eexists. split; [reflexivity|exact Hgev].
+    + split; [apply gclosed_refl|]. split.
+      * apply (after_deliver S i c s1 e' g'); try assumption.
+        destruct g' as [|kn' en]; [exact (proj1 Hpost)|].
+        destruct Hpost as (H1 & H2 & _ & A' & Hk & H3). split; [exact H1|]. split; [exact H2|].
+        exists A'. split; [exact Hk|]. intros Hen. destruct (H3 Hen) as (_ & HA & Hs & Hqq & _). auto.
+      * split.
+        -- cbn [set_half s_ncalls]. rewrite Hnc. unfold nsg in *. cbn [filter is_sg]. lia.
+        -- unfold stopped. cbn [set_half s_half set_next h_closed].
+           destruct g' as [|kn' [|]]; try exact I.
+           ++ exact (proj2 Hpost).
+           ++ destruct Hpost as (_ & H2 & _). exact H2.
+Qed.
+
+(* any number of skipFlush rounds: the loops of flushClose and FlushAll *)
+Inductive flush_res (S : list Z) (i : Z) (c : cfg) (syn : bool) (nc : nat) (g : gst) (r : st * list event * bool) : Prop :=
+| FlushRes : forall st' ev gm g',
+    r = (st', ev, false) -> gevs S c true syn nc g ev gm -> gclosed gm g' -> ginv c S i g' st' ->
+    s_ncalls st' = (nc + nsg ev)%nat -> flush_res S i c syn nc g r.
+
+Lemma flush_res_nil : forall S i c syn g st, ginv c S i g st -> flush_res S i c syn (s_ncalls st) g (st, [], false).
+Proof.
+  intros. econstructor; [reflexivity|reflexivity|apply gclosed_refl|eassumption|].
+  unfold nsg. cbn. lia.
+Qed.
+
+Lemma fc_loop_gen : forall S i c syn t fuel st kn,
+  zlen S < HIS -> ginv c S i (GLive kn false) st ->
+  flush_res S i c syn (s_ncalls st) (GLive kn false) (fc_loop fuel fullv st t).
+Proof.
+  intros S i c syn t. induction fuel as [|f IH]; intros st kn HS Hinv.
+  - cbn [fc_loop]. apply flush_res_nil. exact Hinv.
+  - cbn [fc_loop].
+    destruct (h_queue (s_half st)) as [|p q'] eqn:Eq; [apply flush_res_nil; exact Hinv|].
+    destruct (pseen p <? t); [|apply flush_res_nil; exact Hinv].
+    destruct (skip_flush_gen S i c syn st kn HS Hinv) as (s1 & ev1 & gm & g1 & He & Hg & Hgc & Hi & Hnc & Hst).
+    rewrite He.
+    destruct (h_closed (s_half s1)) eqn:Hcl1.
+    + econstructor; [reflexivity|exact Hg|exact Hgc|exact Hi|exact Hnc].
+    + (* still open: the abstract state is live and open, and nothing was closed silently *)
+      destruct g1 as [|kn1 [|]].
+      * unfold stopped in Hst. congruence.
+      * unfold stopped in Hst. congruence.
+      * assert (gm = GLive kn1 false).
+        { destruct Hgc as [Hgc|(k & _ & Hgc)]; [symmetry; exact Hgc|discriminate]. }
+        subst gm.
+        destruct (IH s1 kn1 HS Hi) as [s2 ev2 gm2 g2 He2 Hg2 Hgc2 Hi2 Hnc2].
+        rewrite He2. econstructor; [reflexivity| |exact Hgc2|exact Hi2|].
+        -- eapply gevs_app; [exact Hg|]. rewrite <- Hnc. exact Hg2.
+        -- rewrite Hnc2, Hnc, nsg_app. lia.
 Qed.
